@@ -1132,6 +1132,10 @@ func (p *prover) condFacts(conds []Cond) []dfact {
 	var out []dfact
 	conds = expandBoolPhis(conds, 0)
 	for _, cd := range conds {
+		if ex, isEx := cd.V.(*ssa.Extract); isEx {
+			out = append(out, p.boolResultFacts(ex, cd.Truth)...)
+			continue
+		}
 		bo, ok := cd.V.(*ssa.BinOp)
 		if !ok {
 			continue
